@@ -75,3 +75,45 @@ fn k_tbl_2_allocate_step() {
     vcover!();
     std::mem::forget(table);
 }
+
+//@ob id=K-TBL-3 kind=C props=C24 timeout=900 fn=Table::record_unfilled_page,Table::take_non_full_page
+//@ pre: a table with two real pages of one ingredient (3 and PAGE_LEN-1 slots used); a dropped handle recycles one or both; later handles ask for a non-full page of that ingredient (and of another one)
+//@ post: every recycled page is handed out **at most once** (a page given to one handle is gone from the pool, so two live handles never both believe they are its unique writer); pages of one ingredient are never handed to another; an empty pool yields none
+#[cfg_attr(kani, kani::proof)]
+#[cfg_attr(kani, kani::unwind(5))]
+#[cfg_attr(salsa_verif_replay, test)]
+fn k_tbl_3_recycled_page_is_handed_out_once() {
+    let t = Table::default();
+    let ing = IngredientIndex::new(0);
+    let other = IngredientIndex::new(1);
+    let types = Arc::new(MemoTableTypes::default());
+    // two real, partially filled pages of `ing` (fill level symbolic, below capacity)
+    let p1 = t.push_page::<S>(ing, types.clone());
+    let p2 = t.push_page::<S>(ing, types.clone());
+    // concrete fill levels: a symbolic level makes an implementation that inspects the pages exhaust CBMC's memory
+    let (f1, f2): (usize, usize) = (3, PAGE_LEN - 1);
+    t.pages[p1.0].allocated.store(f1, Ordering::Release);
+    t.pages[p2.0].allocated.store(f2, Ordering::Release);
+    let two: bool = vk::any();
+    assert!(t.take_non_full_page(ing).is_none());
+    t.record_unfilled_page(ing, p1);
+    if two {
+        t.record_unfilled_page(ing, p2);
+    }
+    assert!(t.take_non_full_page(other).is_none());
+    let a = t.take_non_full_page(ing);
+    let b = t.take_non_full_page(ing);
+    let c = t.take_non_full_page(ing);
+    assert!(a.is_some());
+    assert!(b.is_some() == two);
+    assert!(c.is_none());
+    if let (Some(a), Some(b)) = (a, b) {
+        assert!(a.0 != b.0);
+        assert!((a.0 == p1.0 && b.0 == p2.0) || (a.0 == p2.0 && b.0 == p1.0));
+    } else {
+        assert!(a.unwrap().0 == p1.0);
+    }
+    vcover!(two, "two pages recycled");
+    vcover!();
+    std::mem::forget(t);
+}
